@@ -128,6 +128,16 @@ class RebuildProp(Prop):
         c["rel_paths"] = rng.random() < 0.25
         c["file_arg"] = rng.random() < 0.15
         c["nested_search"] = rng.random() < 0.15
+        c["dir_named_like_file"] = rng.random() < 0.2
+        if rng.random() < 0.2:
+            for f in t["files"]:
+                for cd in f["cands"]:
+                    cd["under_named_dir"] = True
+        if rng.random() < 0.2:
+            for f in t["files"]:
+                for cd in f["cands"]:
+                    if cd["cls"] == "intact" and rng.random() < 0.5:
+                        cd["as_symlink"] = True
         c["dest_spelling"] = rng.choice([None, None, None, "symlink", "dotdot"])
         c["search_spelling"] = rng.choice([None, None, None, "symlink", "dotdot"])
         c.update(kw)
@@ -479,6 +489,15 @@ class C19(RebuildProp):
                         f["cands"] = [] if fi == missing else [{"cls": "intact", "search": 0, "depth": 0}]
                     out.append({"version": v, "P": B, "tree": t, "meta_src": "ref", "hostile": True, "nsearch": 1,
                                 "unrelated": 1, "clauses": list(self.clauses)})
+        # values of unexpected types where names, paths and lengths are expected: rebuild may refuse or fail,
+        # it must not touch anything outside the destination
+        for v in (1, 2, 3):
+            for k in range(12):
+                t = mk_tree("D2", (B + 5, 2 * B))
+                for fi, f in enumerate(t["files"]):
+                    f["cands"] = [{"cls": "intact", "search": 0, "depth": 0}]
+                out.append({"version": v, "P": B, "tree": t, "meta_src": "ref", "hostile": True, "type_hostile": k,
+                            "nsearch": 1, "unrelated": 1, "clauses": list(self.clauses)})
         # benign controls: ordinary names must keep working (copy happens inside the destination)
         for v in (1, 2, 3):
             t = mk_tree("D2", (B + 5, 2 * B))
